@@ -284,8 +284,17 @@ def c01(tier, seed, work):
     if tier != "quick":
         fams.append(dict(name="c01-honest-exact", family="honest", tier="quick", seed=seed + 1, opts={"exact": True}))
         fams.append(dict(name="c01-honest-s2", family="honest", tier="quick", seed=seed + 2))
-    return hs_check("C01", tier, seed, work, fams,
-                    mutants=[("Mutant_Handshake_CheckRakp4.cfg", "C01_KeyAgreement")] if tier != "quick" else ())
+    res = hs_check("C01", tier, seed, work, fams,
+                   mutants=[("Mutant_Handshake_CheckRakp4.cfg", "C01_KeyAgreement")] if tier != "quick" else ())
+    # "every command subsequently sent passes the BMC's integrity check and decryption": also the retransmissions that follow
+    # damaged, unauthentic or undecodable replies
+    a, i = suite_for(seed, 1)
+    a2, i2 = suite_for(seed, 5)
+    d = 2 if tier == "quick" else 3
+    return add_console(res, work, [dict(name="c01-retry-s", insess=True, cmds="CmdsAR", maxcalls=2, maxatt=d, kinds="KindsRetry", auth=a, integ=i),
+                                   dict(name="c01-forge-s", insess=True, cmds="CmdsAB", maxcalls=2, maxatt=d, kinds="KindsForge", auth=a2, integ=i2)],
+                       "In-session commands under every outcome sequence of Console.tla (busy, garbage, bad signature, wrong pad, forged): "
+                       "every datagram the BMC receives, first or repeated, must verify under the BMC-side K1 and decrypt under K2.")
 
 
 def c02(tier, seed, work):
@@ -586,6 +595,12 @@ def c06_vec(tier, seed, work):
 
 def c17(tier, seed, work):
     res = c17_vec(tier, seed, work)
+    a, i = suite_for(seed, 3)
+    d = 2 if tier == "quick" else 3
+    res = add_console(res, work, [dict(name="c17-hist-s", insess=True, cmds="CmdsAB", maxcalls=2 if tier == "quick" else 3, maxatt=d if tier == "quick" else 2, kinds="KindsRetry", auth=a, integ=i),
+                                  dict(name="c17-hist-n", insess=False, cmds="CmdsAR", maxcalls=2 if tier == "quick" else 3, maxatt=d if tier == "quick" else 2, kinds="KindsSessionless", auth=1, integ=1)],
+                      "Histories: every outcome sequence of Console.tla for two (thorough: three) consecutive calls on one connection / session; "
+                      "the result and transmissions of each later call must be those the reference model predicts from that call's own replies.")
     return add_walk(res, work, [dict(name="c17-api", module="MCGenApi", cfg_tpl="Gen_Cipher.cfg.tpl", family="api", tier=tier, seed=seed),
                                 dict(name="c17-cipher", module="MCGenCipher", cfg_tpl="Gen_Cipher.cfg.tpl", family="reuse", tier=tier, seed=seed)],
                     "Connection level: every command once on one connection / session in table order and in reverse order; the value decoded "
